@@ -10,7 +10,9 @@ CONSTANTS Schemes, Hosts, Ports, BasePathIdx, Queries, RelSegs, MaxRel, StatusSe
 
 VARIABLES hop, orig, cur, method, policy, last
 vars == <<hop, orig, cur, method, policy, last>>
-view == <<hop, orig, cur, method, policy>>
+\* `last` is hidden from the fingerprint, except for whether the step failed a clause: otherwise a failing step that
+\* leaves the rest of the state unchanged would be merged with its predecessor and never be evaluated by Refines
+view == <<hop, orig, cur, method, policy, last.fails # {}>>
 
 BasePathTable == << <<"">>, <<"x", "y">>, <<"x", "y", "">>, <<"x">> >>
 BasePaths == { BasePathTable[k] : k \in BasePathIdx }
